@@ -473,6 +473,7 @@ func Check(c Case) *kit.Violation {
 	if v != nil {
 		return v
 	}
+	var served *http.Request // the request object the caller handed to RoutesHandler in the previous iteration
 	for _, r := range c.Reqs {
 		req, err := readRequest(r)
 		if err != nil {
@@ -506,6 +507,23 @@ func Check(c Case) *kit.Violation {
 			}
 			if v := judgeServed(level, c, api, r, e, b, rec); v != nil {
 				return v
+			}
+			if level == "RoutesHandler" {
+				// a caller may dispatch a request object again after changing where it points (internal redirect, batch
+				// endpoint): nothing of the earlier dispatch may decide the new one
+				if served != nil {
+					again := served.Clone(served.Context())
+					again.Method, again.URL, again.RequestURI, again.Host = req.Method, req.URL, req.RequestURI, req.Host
+					b.hits, b.seen = nil, nil
+					rec2 := httptest.NewRecorder()
+					if v := kit.Guard("RoutesHandler.ServeHTTP (request object dispatched again)", func() { h.ServeHTTP(rec2, again) }); v != nil {
+						return kit.Failf("%s; %s", v.Msg, describe(c, r, e))
+					}
+					if v := judgeServed("RoutesHandler (request object of the previous request dispatched again)", c, api, r, e, b, rec2); v != nil {
+						return v
+					}
+				}
+				served = req
 			}
 		}
 		req, _ = readRequest(r)
